@@ -56,7 +56,7 @@ prop("C15", kind="sim", quick_runs=3000, thorough_s=600,
           "distinct = distinct (target, full operation/result trace) hashes; non-trivial = the history changed the map at least once",
      fault_kinds=["duplicate_key", "nil_key", "nil_element", "nil_receiver", "delete_absent"],
      probes=["state_changes", "two_or_more_entries", "delete_not_last", "returned_keys_mutated", "returned_values_mutated",
-             "roundtrip_with_two_or_more", "map_created_by_getorcreate"])
+             "roundtrip_with_two_or_more", "map_created_by_getorcreate", "replica_synced_by_diff", "moved_to_end"])
 
 
 prop("C34", kind="sim", quick_runs=3000, thorough_s=600,
@@ -482,6 +482,33 @@ def generic_check(pid, tier, seed):
     return 1 if new else 0
 
 
+def generated_code_violation(pid, tier, seed, e):
+    """C15 / C34 are about the helpers the generator emits. The workload packages are generated from
+    YANG by the working tree's own generator at check time and compile on the unchanged tree; if they
+    stop compiling, the helpers this property speaks about are broken in the plainest way."""
+    os.makedirs(os.path.join(VERIF, "replays"), exist_ok=True)
+    path = os.path.join(VERIF, "replays", "%s-generated-code-does-not-compile.json" % pid)
+    first = [l for l in e.output.splitlines() if ".go:" in l][:8]
+    sig = "%s:generated-code-does-not-compile" % pid
+    doc = {"property": pid, "seed": seed, "violation": {"property": pid, "oracle": "generated-code-compile", "signature": sig,
+                                                      "msg": "the Go code generated for the workload schemas does not compile: " + " | ".join(first)},
+           "case": {"corpus": e.pkgs, "how": "run the working tree's generator with the flags of vlib/corpus.py on schemas/verif-oc.yang and `go build` the result"},
+           "compiler_output": e.output[-6000:], "how_to_replay": "./verifctl check %s" % pid}
+    with open(path, "w") as f:
+        json.dump(doc, f, indent=1)
+    cov = {"evaluations": len(e.pkgs), "distinct_nontrivial": len(e.pkgs),
+           "rule": "this run stopped at the build step: the packages generated from the workload schemas (one evaluation each) do not compile",
+           "samples": [{"compiler_output_head": first}], "components": COMPONENTS}
+    write_evidence(pid, tier, seed, cov, ["no history was executed in this run"], 0.0, 1)
+    k = match_known(pid, sig)
+    if k:
+        print("KNOWN-FINDING: property=%s %s [%s]" % (pid, k.get("what", ""), sig))
+        return 0
+    print("VIOLATION property=%s replay=%s" % (pid, path))
+    print("  oracle=generated-code-compile signature=%s\n  %s" % (sig, "\n  ".join(first)))
+    return 1
+
+
 def main(cmd, argv):
     ap = argparse.ArgumentParser(prog="verifctl " + cmd)
     if cmd == "check":
@@ -496,6 +523,11 @@ def main(cmd, argv):
                 log("unknown property", a.prop)
                 return 2
             return generic_check(a.prop, a.tier, a.seed)
+        except build.GeneratedCodeError as e:
+            if a.prop not in ("C15", "C34"):
+                log("BUILD/INFRA ERROR (exit 2, not a violation):\n%s" % e)
+                return 2
+            return generated_code_violation(a.prop, a.tier, a.seed, e)
         except build.BuildError as e:
             log("BUILD/INFRA ERROR (exit 2, not a violation):\n%s" % e)
             return 2
